@@ -1369,4 +1369,42 @@ theorem nextOk_of_mem (sc : SScript) (L : Layout) (h : some L ∈ sc) : ∃ L', 
       simpa using h
     | some L0 => exact ⟨L0, rfl⟩
 
+/-! ## the batch calls complete on every script that describes a complete run -/
+
+theorem runBatches_completes (mk : Layout → List Item → List (Region × List Item)) (prep : List Item → List Item)
+    (exec : BState → Region → List Item → BState)
+    {bs : List (Region × List Item)} {os : List Bool} {sc sc' : BScript} (h : Completes mk prep bs os sc sc') :
+    sc'.length ≤ sc.length ∧
+    ∀ (F : Nat) (s : BState), sc.length ≤ F →
+      (runBatches (sendBatch mk prep exec F) exec s bs os sc).2 = some sc' := by
+  induction h with
+  | nil sc => exact ⟨Nat.le_refl _, fun F s _ => by simp [runBatches]⟩
+  | served _ ih =>
+    refine ⟨ih.1, fun F s hF => ?_⟩
+    simp only [runBatches]
+    exact ih.2 F _ hF
+  | @regrouped R b bs os e sc sc1 sc' h1 h2 ih1 ih2 =>
+    refine ⟨by have := ih1.1; have := ih2.1; simp only [List.length_cons]; omega, fun F s hF => ?_⟩
+    simp only [List.length_cons] at hF
+    obtain ⟨F', rfl⟩ : ∃ F', F = F' + 1 := ⟨F - 1, by omega⟩
+    simp only [runBatches]
+    have hn : (sendBatch mk prep exec (F' + 1) (failed s b) b (e :: sc)).2 = some sc1 := by
+      simp only [sendBatch]
+      exact ih1.2 F' _ (by omega)
+    split
+    · rename_i s1 hr
+      rw [hr] at hn; simp at hn
+    · rename_i s1 scx hr
+      rw [hr] at hn
+      simp only [Option.some.injEq] at hn
+      subst hn
+      exact ih2.2 (F' + 1) s1 (by have := ih1.1; omega)
+
+theorem sendBatch_completes (mk : Layout → List Item → List (Region × List Item)) (prep : List Item → List Item)
+    (exec : BState → Region → List Item → BState) (s : BState) (items : List Item) (e : BEntry) (sc sc' : BScript)
+    (h : Completes mk prep (mk e.layout (prep items)) e.outs sc sc') :
+    (sendBatch mk prep exec ((e :: sc).length + 1) s items (e :: sc)).2 = some sc' := by
+  simp only [List.length_cons, sendBatch]
+  exact (runBatches_completes mk prep exec h).2 _ _ (by omega)
+
 end CGV.RawKV
